@@ -1430,6 +1430,17 @@ func (ev *evalCtx) call(x *ast.CallExpr, want types.Type) (string, types.Type, e
 			return fmt.Sprintf("(not (= (fn_id %s) 0))", a), boolT, nil
 		}
 		return "", nil, fmt.Errorf("nonnil of %s", t)
+	case "rpos":
+		// rpos(): byte position of the function's string range iterator (the only one)
+		if err := argc(0); err != nil {
+			return "", nil, err
+		}
+		if len(ev.c.rangeLocs) != 1 {
+			return "", nil, fmt.Errorf("rpos(): the function has %d string range loops seen so far, need exactly one", len(ev.c.rangeLocs))
+		}
+		for _, l := range ev.c.rangeLocs {
+			return fmt.Sprintf("(select %s %s)", ev.H("bv64"), l), intT, nil
+		}
 	case "sameheap":
 		// sameheap(): every heap component (and the allocation counter) is what it was at
 		// function entry - "the call had no effect at all" (for contracts whose frame is
